@@ -47,6 +47,26 @@ fn main() {
                 let sum = vh::enc::run_enc(cases, seed, replay_dir, if ex { Some((shard, nshards)) } else { None });
                 finish(&sum, arg(&args, "--out"));
             }
+            #[cfg(not(feature = "shuttle"))]
+            if engine == "coop" {
+                use vh::coop::*;
+                let cases: u32 = arg(&args, "--cases").map(|s| s.parse().unwrap()).unwrap_or(100);
+                let seed: u64 = arg(&args, "--seed").map(|s| s.parse().unwrap()).unwrap_or(1);
+                let replay_dir = arg(&args, "--replay-dir").unwrap_or("/verif/replays");
+                let known: Vec<String> = arg(&args, "--known").map(|s| s.split(',').filter(|x| !x.is_empty()).map(|x| x.to_string()).collect()).unwrap_or_default();
+                let spec = vh::gdrive::GSpec::<CoopCase> {
+                    property: prop,
+                    engine: "coop",
+                    config: "std",
+                    tape_len: 420,
+                    max_shrink_iters: 600,
+                    decode: &|t| gen_coop_case(t, prop),
+                    run: &|c| run_coop_case(prop, c),
+                    size: &|c| c.prog.nodes.len() + c.plans.iter().map(|p| p.len()).sum::<usize>(),
+                };
+                let sum = vh::gdrive::gdrive(&spec, cases, seed, replay_dir, &known);
+                finish(&sum, arg(&args, "--out"));
+            }
             #[cfg(feature = "shuttle")]
             if engine == "shut" {
                 use vh::shut::*;
@@ -93,6 +113,27 @@ fn main() {
             let generic: serde_json::Value = serde_json::from_str(&std::fs::read_to_string(path).unwrap()).unwrap();
             if generic.get("engine").and_then(|e| e.as_str()) == Some("enc") {
                 match vh::enc::replay(path) {
+                    Ok(v) => {
+                        for x in &v {
+                            println!("violation rule={} step={} {}", x.rule, x.step, x.detail);
+                        }
+                        if v.is_empty() {
+                            println!("no violation");
+                            exit(0);
+                        }
+                        exit(1);
+                    }
+                    Err(e) => {
+                        eprintln!("{e}");
+                        exit(2);
+                    }
+                }
+            }
+            #[cfg(not(feature = "shuttle"))]
+            if generic.get("engine").and_then(|e| e.as_str()) == Some("coop") {
+                use vh::coop::*;
+                let prop = generic.get("property").and_then(|e| e.as_str()).unwrap_or("C20").to_string();
+                match vh::gdrive::greplay::<CoopCase>(path, &|c| run_coop_case(&prop, c)) {
                     Ok(v) => {
                         for x in &v {
                             println!("violation rule={} step={} {}", x.rule, x.step, x.detail);
